@@ -102,7 +102,7 @@ InvMoved == (Mode = "model" /\ pc = 0) =>
 Cls == <<"Dense", "User", "Diag", "ConstDiag", "Identity", "Zero", "Toeplitz", "Tri", "Chol", "Root", "LowRankRoot",
          "Kron", "KronTri", "KronDiag", "KronAddedDiag", "SumKron", "AddedDiag", "LRRAddedDiag", "Sum", "PsdSum",
          "Matmul", "Mul", "ConstMul", "BlockDiag", "BlockInter", "SumBatch", "BatchRepeat", "Cat", "Interp", "Masked",
-         "Perm", "TransPerm", "Kernel", "SumInterp", "MatmulTri", "InterpRootSameIdx", "KernelM">>
+         "Perm", "TransPerm", "Kernel", "SumInterp", "MatmulTri", "InterpRootSameIdx", "KernelM", "KronRect">>
 RBatches == IF Quick THEN << <<>>, <<2>> >> ELSE << <<>>, <<2>>, <<2, 1>> >>
 NChunks == IF Quick THEN 6 ELSE 24
 DepthOf(c) == IF c \in G_LeafClasses THEN 0 ELSE 1
